@@ -68,6 +68,9 @@ struct RunCtl
     std::string filename;       // for the writing modes
     u64 user_stop = ~0ULL;      // scripted callback returns false when it sees this many results
     bool user_durable = false;  // scripted callback stores the text durably (file model)
+    bool user_stateful = false; // the scripted callback counts its own invocations (state inside the functor)
+    bool nested = false;        // the integrand runs a small nested integration on some calls
+    bool base_typed = false;    // built-in callback instantiated with the checkpoint's base class (no generators)
     bool log_text = true;
     bool log_calls = true;
     // faults
